@@ -450,3 +450,14 @@ package workflow
 //@   on aftercall Role.ProcessTemplates : failed = result != nil
 //@   on call multierror.Append : assert failed && !filed ; filed = true
 //@   ensures failed ==> filed
+
+// the stage callback every role kind hands to the template sequence: after STAGE0 (only `enabled` processed so far) a
+// disabled role short-circuits the sequence with a RoleDisabledError; otherwise the stage's own error passes through
+//@ closure MakeDisabledRoleCallback #1
+//@   property C15
+//@   ghostvar asked bool = false
+//@   ghostvar en bool = false
+//@   on aftercall Role.IsEnabled : en = result ; asked = true
+//@   ensures stage == template.STAGE0 ==> asked
+//@   ensures stage == template.STAGE0 && !en ==> result != nil && result is *template.RoleDisabledError
+//@   ensures !(stage == template.STAGE0 && !en) ==> result == err
